@@ -88,13 +88,9 @@ def run(tier, seed):
             x[:, vs] = np.asarray(cells)
             p = bridge.eval_compiled(tc, x, "sum-product")[:, 0, 0]
             ck.eq("normalised", base, np.array([p.sum()]), np.array([1.0]), rtol=1e-9)
-            try:
-                samples, _ = SamplingQuery(tc)(N)
-            except TypeError as e:
-                if "Sampling not implemented for" in str(e):  # recorded finding: optimized layers without a sample method
-                    hits.append(f"{e} (circuit {n}, fold={fold}, optimize={opt}, {desc['product']})")
-                    return
-                raise
+            # (a refusal "Sampling not implemented for <optimized layer>" was a recorded finding until TorchTuckerLayer.sample was added by a
+            #  fix: commit; it is an ordinary failing input now - the exception is booked by ck.guarded)
+            samples, _ = SamplingQuery(tc)(N)
             s = samples.detach().cpu().numpy()
             ck.true("sample_shape", base, s.shape == (N, width), f"samples of shape {s.shape}, expected {(N, width)}", nontrivial=False)
             if s.shape != (N, width):
@@ -124,6 +120,4 @@ def run(tier, seed):
                 t = 6.5 * np.sqrt(pm * (1 - pm) / N) + 2.0 / N
                 ck.true("column_marginal_of_its_variable", dict(base, var=v), bool(np.all(np.abs(fm - pm) <= t)), f"variable {v}: {fm} vs {pm}")
         ck.guarded("sampling", base, go)
-    ck.res.known_finding("C15-sampling-not-implemented-for-optimized-layer", bool(hits), "; ".join(hits[:3]))
-    ck.res.count("circuits refused by the recorded finding", len(hits))
     return ck.res
